@@ -103,10 +103,10 @@ def build(read):
     fr, transparent, clauses = frames_spec(variants)
     spec = ("\n    ensures\n" + clauses + "\n"
             "        (error is AtLoc || error is EvalBuiltinFuncCallFailed) ==> r.stacktrace@.len() == frames(error), // [C17:position_wrappers_add_no_stack_frame]\n"
-            "        error is EvalFuncCallFailed ==> r.stacktrace@.len() == frames(error), // [C17:each_user_call_adds_exactly_one_stack_frame_after_the_inner_ones]\n"
-            "        r.stacktrace@.len() == frames(error), // [C17:stack_trace_has_one_line_per_active_call]\n"
+            "        error is EvalFuncCallFailed ==> r.stacktrace@.len() == frames(error), // [C17_C18:each_user_call_adds_exactly_one_stack_frame_after_the_inner_ones]\n"
+            "        r.stacktrace@.len() == frames(error), // [C17_C18:stack_trace_has_one_line_per_active_call]\n"
             "        r.msg@ == msg_of(fview(func), error), // [C17_C18:the_message_is_line_colon_col_colon_optional_in_function_then_the_text_with_the_position_of_the_innermost_failure_first]\n"
-            "        lines(r.stacktrace@) == trace_of(path.lossy(), fview(func), error), // [C17:each_stack_line_is_path_line_col_in_caller_innermost_call_first]\n"
+            "        lines(r.stacktrace@) == trace_of(path.lossy(), fview(func), error), // [C17_C18:each_stack_line_is_path_line_col_in_caller_innermost_call_first]\n"
             "    decreases error\n")
     import re
     import print_render as pr_unit
